@@ -203,3 +203,63 @@ Theorem C11_insertion_index_lookup :
   forall rs d, ii_getall d (ii_load rs []) = spec_offsets_digest rs d.
 Proof. exact ii_getall_load. Qed.
 Print Assumptions C11_insertion_index_lookup.
+
+(* ---- InsertionIndex.Marshal / Unmarshal (the CBOR-framed form; not an on-disk CARv2 codec) ---------
+   The code as it is does NOT satisfy the property for this index kind; the statements below are the
+   refutations (witnesses replayed on the real code: corpus/C11/insertion-cbor.case, known findings
+   insertion-index-{roundtrip,lossy,length}), the exact extent of the failure, and what does hold.
+   [recdec] is the CBOR decoder (whyrusleeping/cbor, a dependency) on the stream after the count. *)
+From GoCarProofs Require Import IndexInsertionCbor.
+
+(* round trip: refuted by a one-record index reachable by an insert, for EVERY decoder behaviour *)
+Theorem C11_insertion_index_roundtrip_refuted :
+  exists ii, (exists rs, ii = ii_load rs []) /\
+             forall recdec r, ii_unmarshal recdec (ii_marshal ii) <> Ok r.
+Proof. exact ii_roundtrip_refuted. Qed.
+Print Assumptions C11_insertion_index_roundtrip_refuted.
+
+(* in fact no non-empty index ever comes back ... *)
+Theorem C11_insertion_index_roundtrip_never :
+  forall recdec ii rest, ii <> [] -> N.of_nat (length ii) < two63 ->
+    forall r, ii_unmarshal recdec (ii_marshal ii ++ rest) <> Ok r.
+Proof. exact ii_roundtrip_never. Qed.
+Print Assumptions C11_insertion_index_roundtrip_never.
+
+(* ... and if the decoder accepts what the encoder wrote, Unmarshal panics (newRecordDigest on the
+   zero Cid) *)
+Theorem C11_insertion_index_roundtrip_panics :
+  forall recdec ii rest, ii <> [] -> N.of_nat (length ii) < two63 ->
+    (forall off tl, recdec (ii_rec_cbor off ++ tl) = Ok tl) ->
+    ii_unmarshal recdec (ii_marshal ii ++ rest) = Err EPanic.
+Proof. exact ii_roundtrip_panics. Qed.
+Print Assumptions C11_insertion_index_roundtrip_panics.
+
+(* partial (guard: the index is empty): the empty index round-trips, trailing bytes untouched *)
+Theorem C11_insertion_index_roundtrip_partial :
+  forall recdec rest, ii_unmarshal recdec (ii_marshal [] ++ rest) = Ok ([], rest).
+Proof. exact ii_unmarshal_marshal_nil. Qed.
+Print Assumptions C11_insertion_index_roundtrip_partial.
+
+(* canonicity / losslessness: refuted -- two different indexes (different answers to a lookup) with
+   identical bytes; Marshal depends on the offsets only *)
+Theorem C11_insertion_index_lossless_refuted :
+  exists ii ii', ii <> ii' /\ ii_marshal ii = ii_marshal ii' /\
+                 ii_getall [xaa; xbb; xcc; xdd] ii <> ii_getall [xaa; xbb; xcc; xdd] ii'.
+Proof. exact ii_marshal_not_injective_refuted. Qed.
+Print Assumptions C11_insertion_index_lossless_refuted.
+
+Theorem C11_insertion_index_marshal_forgets_cids :
+  forall ii ii', map r_off ii = map r_off ii' -> ii_marshal ii = ii_marshal ii'.
+Proof. exact ii_marshal_forgets_cids. Qed.
+Print Assumptions C11_insertion_index_marshal_forgets_cids.
+
+(* reported byte count: the constant 8; right exactly for the empty index *)
+Theorem C11_insertion_index_length_refuted :
+  exists ii, ii_marshal_len ii = 8 /\ blen (ii_marshal ii) = 24.
+Proof. exact ii_marshal_len_refuted. Qed.
+Print Assumptions C11_insertion_index_length_refuted.
+
+Theorem C11_insertion_index_length_partial :
+  forall ii, ii_marshal_len ii = blen (ii_marshal ii) <-> ii = [].
+Proof. exact ii_marshal_len_right_iff_empty. Qed.
+Print Assumptions C11_insertion_index_length_partial.
